@@ -31,7 +31,7 @@
    the C04 model Registry.step, run on the connection table and service table
    kept here.
 
-   The limits are a parameter of [step], not part of the state.  Model only
+   The limits are a parameter of [lstep], not part of the state.  Model only
    (no proofs here).  Out of model: OOM paths, activation, policy (permissive
    configuration), max_incoming_bytes / max_outgoing_bytes (flow control),
    file descriptors, timing (a reply timeout is an event), the transient state
@@ -72,7 +72,7 @@ Record state := mkState {
   s_byuser : list (N * N)           (* connections->completed_by_user: uid -> count *)
 }.
 
-Definition init : state := mkState [] [] 0 [] [] [] 0 0 [].
+Definition linit : state := mkState [] [] 0 [] [] [] 0 0 [].
 
 Inductive lerr :=
 | LLimitsExceeded | LFailed | LAccessDenied | LInvalidArgs
@@ -92,9 +92,9 @@ Inductive omsg :=
 | OClosed                         (* the bus closed this connection *)
 | OFault.                         (* ill-formed event / assertion path of the C code *)
 
-Definition out := (N * omsg)%type.
+Definition lout := (N * omsg)%type.
 
-Inductive event :=
+Inductive levent :=
 | Connect (uid : N)                              (* a client with these credentials connects *)
 | Hello (c : N)
 | Disconnect (c : N)                             (* the client closes its socket *)
@@ -118,7 +118,7 @@ Definition conv_err (e : err) : lerr :=
   | ELimitsExceeded => LLimitsExceeded | EFailed => LFailed
   end.
 
-Definition conv (o : RegTypes.out) : out :=
+Definition conv (o : RegTypes.out) : lout :=
   match snd o with
   | MError e => (fst o, OErr (conv_err e))
   | MAck => (fst o, OAck)
@@ -180,7 +180,7 @@ Fixpoint check_reply (l : list pend) (g sd s : N) : list pend :=
 
 (* bus_connection_drop_pending_replies followed by the expiry pass it schedules:
    calls made by c are forgotten; calls c was to answer are answered with NoReply *)
-Fixpoint drop_pending (l : list pend) (c : N) : list pend * list out :=
+Fixpoint drop_pending (l : list pend) (c : N) : list pend * list lout :=
   match l with
   | [] => ([], [])
   | p :: l' =>
@@ -241,19 +241,19 @@ Definition with_rules (s : state) (ds : list cdata) (rl : list (N * N)) : state 
   mkState (s_conns s) (s_services s) (s_next s) ds rl (s_pending s)
           (s_ncomplete s) (s_nincomplete s) (s_byuser s).
 
-Definition fault (s : state) (c : N) : state * list out := (s, [(c, OFault)]).
+Definition lfault (s : state) (c : N) : state * list lout := (s, [(c, OFault)]).
 
 Definition is_active (s : state) (c : N) : bool :=
   match find_conn (s_conns s) c with Some cn => c_active cn | None => false end.
 
 (* bus_connection_disconnected.  [closed_by_bus]: the connection itself learns it (EOF) *)
-Definition disconnect (L : limits) (s : state) (c : N) (closed_by_bus : bool) : state * list out :=
+Definition disconnect (L : limits) (s : state) (c : N) (closed_by_bus : bool) : state * list lout :=
   match find_conn (s_conns s) c, find_cd (s_cdata s) c with
   | Some cn, Some d =>
       (* match rules first, then the names (each in its own transaction), the connection
          lists and counters, then the pending replies *)
       let (b', ro) := Registry.step (reg L s) (EvDisconnect c) in
-      if existsb is_fault ro then fault s c
+      if existsb is_fault ro then lfault s c
       else
         let (pl, po) := drop_pending (s_pending s) c in
         (mkState (b_conns b') (b_services b') (b_next b')
@@ -264,16 +264,16 @@ Definition disconnect (L : limits) (s : state) (c : N) (closed_by_bus : bool) : 
                  (if c_active cn then s_nincomplete s else s_nincomplete s - 1)
                  (if c_active cn then set_uid (s_byuser s) (d_uid d) (get_uid (s_byuser s) (d_uid d) - 1) else s_byuser s),
          (if closed_by_bus then [(c, OClosed)] else []) ++ map conv ro ++ po)
-  | _, _ => fault s c
+  | _, _ => lfault s c
   end.
 
 (* a request handled by the registry model; counters are untouched *)
-Definition via_registry (L : limits) (s : state) (c : N) (e : RegTypes.event) : state * list out :=
+Definition via_registry (L : limits) (s : state) (c : N) (e : RegTypes.event) : state * list lout :=
   let (b', ro) := Registry.step (reg L s) e in
-  if existsb is_fault ro then fault s c else (with_reg s b', map conv ro).
+  if existsb is_fault ro then lfault s c else (with_reg s b', map conv ro).
 
 (* ---- one event ------------------------------------------------------------------------ *)
-Definition step (L : limits) (s : state) (e : event) : state * list out :=
+Definition lstep (L : limits) (s : state) (e : levent) : state * list lout :=
   match e with
   | Connect uid =>
       (* bus_context_check_all_watches: no accept() while n_incomplete >= max_incomplete_connections *)
@@ -295,13 +295,13 @@ Definition step (L : limits) (s : state) (e : event) : state * list out :=
           else
             (* bus_connection_complete, welcome message, bus_registry_ensure *)
             let (b', ro) := Registry.step (reg L s) (EvHello c) in
-            if existsb is_fault ro then fault s c
+            if existsb is_fault ro then lfault s c
             else
               (mkState (b_conns b') (b_services b') (b_next b') (s_cdata s) (s_rules s) (s_pending s)
                        (s_ncomplete s + 1) (s_nincomplete s - 1)
                        (set_uid (s_byuser s) (d_uid d) (get_uid (s_byuser s) (d_uid d) + 1)),
                map conv ro)
-      | _, _ => fault s c
+      | _, _ => lfault s c
       end
   | Disconnect c => disconnect L s c false
   | RequestName c name flags => via_registry L s c (EvRequest c name flags)
@@ -318,7 +318,7 @@ Definition step (L : limits) (s : state) (e : event) : state * list out :=
                                  ((c, r) :: s_rules s),
                     [(c, OAck)])
                end
-      | _, _ => fault s c
+      | _, _ => lfault s c
       end
   | RemoveMatch c rule =>
       match find_conn (s_conns s) c, find_cd (s_cdata s) c with
@@ -334,11 +334,11 @@ Definition step (L : limits) (s : state) (e : event) : state * list out :=
                         [(c, OAck)])
                    end
                end
-      | _, _ => fault s c
+      | _, _ => lfault s c
       end
   | Call c d serial noreply =>
       match find_conn (s_conns s) c with
-      | None => fault s c
+      | None => lfault s c
       | Some cn =>
           if negb (c_active cn) then disconnect L s c true            (* "Received message from non-registered client" *)
           else if negb (is_active s d) then (s, [(c, OErr LServiceUnknown)])
@@ -354,7 +354,7 @@ Definition step (L : limits) (s : state) (e : event) : state * list out :=
       end
   | Reply d c serial =>
       match find_conn (s_conns s) d with
-      | None => fault s d
+      | None => lfault s d
       | Some dn =>
           if negb (c_active dn) then disconnect L s d true
           else if negb (is_active s c) then (s, [(d, OErr LServiceUnknown)])
@@ -370,24 +370,24 @@ Definition step (L : limits) (s : state) (e : event) : state * list out :=
       end
   | Emit c tag =>
       match find_conn (s_conns s) c with
-      | None => fault s c
+      | None => lfault s c
       | Some cn =>
           if negb (c_active cn) then disconnect L s c true
           else (s, map (fun r => (r, OSignal c tag)) (recipients s tag))
       end
   | Message c hdr =>
       match find_conn (s_conns s) c with
-      | None => fault s c
+      | None => lfault s c
       | Some cn =>
           (* the loader marks itself corrupted, the transport disconnects *)
           if too_long L hdr then disconnect L s c true else (s, [])
       end
   end.
 
-Fixpoint run (L : limits) (s : state) (h : list event) : state * list (list out) :=
+Fixpoint lrun (L : limits) (s : state) (h : list levent) : state * list (list lout) :=
   match h with
   | [] => (s, [])
-  | e :: r => let (s1, o) := step L s e in let (s2, os) := run L s1 r in (s2, o :: os)
+  | e :: r => let (s1, o) := lstep L s e in let (s2, os) := lrun L s1 r in (s2, o :: os)
   end.
 
 (* ListQueuedOwners as the driver answers it (for the check's probes) *)
